@@ -313,7 +313,49 @@ func (r *Run) checkVersionsPage(op *Op, x *xVersionsResult, b *model.Bucket, km,
 	if x.IsTruncated && (x.NextKeyMarker == "" || x.NextVersionIDMarker == "") {
 		r.fail("versions.walk", "a truncated version listing carries no NextKeyMarker/NextVersionIdMarker", "both markers", fmt.Sprintf("key=%q version=%q", x.NextKeyMarker, x.NextVersionIDMarker))
 	}
+	// a marker pair naming an existing entry: no entry of a later key may be
+	// skipped, and entries of the marker key come before those of later keys
+	if km != "" && vm != "" && op.Delim == "" {
+		later := map[string]int{}
+		for _, w := range want {
+			if w.key > km {
+				later[w.key]++
+			}
+		}
+		got := map[string]int{}
+		lastKey := ""
+		for _, e := range x.Entries {
+			got[e.Key]++
+			lastKey = e.Key
+		}
+		var lk []string
+		for k := range later {
+			lk = append(lk, k)
+		}
+		sort.Strings(lk)
+		for _, k := range lk {
+			if (k < lastKey || !x.IsTruncated) && got[k] != later[k] {
+				r.fail("versions.walk", "a version listing resumed from a (key, version) marker skips or repeats entries of a later key", fmt.Sprintf("%q: %d entries", k, later[k]), fmt.Sprintf("%d entries", got[k]))
+			}
+		}
+		if !x.IsTruncated && op.Max > 0 && len(x.Entries) < op.Max {
+			// everything after the marker fitted: the marker key itself contributes at most its other entries
+			if n := len(wantOf(want, km)); got[km] > n-1 && n > 0 && got[km] > n {
+				r.fail("versions.walk", "a version listing resumed from a marker repeats entries of the marker key", fmt.Sprintf("<= %d", n), fmt.Sprint(got[km]))
+			}
+		}
+	}
 	r.ok("versions.walk")
+}
+
+func wantOf(want []wantVer, key string) []wantVer {
+	var out []wantVer
+	for _, w := range want {
+		if w.key == key {
+			out = append(out, w)
+		}
+	}
+	return out
 }
 
 // opWalkVersions pages through the version listing with the markers the
